@@ -8,13 +8,13 @@ from vlib import *
 
 HOSTS = [b"a.b.c", b"*.b.c", b"b.c", b"*.c", b"x.a.b.c", b"single", b"[::1]", b"[2001:db8::1]", b"example.com", b"*.example.com",
          b"A.b.C", b"*.B.c"]      # spelled with capitals: the table is keyed by the spelling given at deploy time
-PREFIXES = [b"/", b"/api", b"/apiary", b"/api/v1", b"/api/v1/", b"api", b"/a", b"/a/b", b"//x", b"/x//y", b"/app/"]
+PREFIXES = [b"/", b"/api", b"/apiary", b"/api/v1", b"/api/v1/", b"api", b"/a", b"/a/b", b"//x", b"/x//y", b"/app/", b"/a/b/c", b"/api/v1/users"]
 REQ_HOSTS = [b"a.b.c", b"a.b.c:8080", b"z.b.c", b"b.c", b"b.c:80", b"x.a.b.c", b"y.x.a.b.c", b"single", b"single:1", b"other",
              b"[::1]", b"[::1]:80", b"[2001:db8::1]:8443", b"[2001:db8::1]", b"example.com", b"www.example.com:443", b".b.c", b"c", b"",
              b"A.B.C", b"a.b.c.", b"a.b.c:", b":80",
              b"A.b.C", b"A.b.C:8080", b"z.B.c", b"z.B.c:443"]
 REQ_PATHS = [b"/", b"/api", b"/api/", b"/apiary", b"/apiary/x", b"/api/v1", b"/api/v1/users", b"/api/v10", b"/apix", b"/a", b"/a/",
-             b"/a/b", b"/a/bc", b"/a/b/c", b"//x", b"//x/y", b"/x//y", b"/x//y/z", b"/x/y", b"/app", b"/app/", b"/app/z", b"/ap",
+             b"/a/b", b"/a/bc", b"/a/b/c", b"/a/b/c/d", b"/a/b/cd", b"/api/v1/users/7", b"//x", b"//x/y", b"/x//y", b"/x//y/z", b"/x/y", b"/app", b"/app/", b"/app/z", b"/ap",
              b"/api%2Fv1", b"/%61pi", b"/api/../x", b"/API"]
 
 
@@ -43,6 +43,20 @@ def gen_small_table(rnd):
     return svcs
 
 
+def directed_tables():
+    """hand-made tables: prefixes of ONE service nested inside each other with another service's prefix strictly between them
+    (three levels on one host; on the default host; with a wildcard level above)"""
+    def svc(name, hosts, prefixes, k):
+        return {"op": "deploy", "name": name, "hosts": hosts, "prefixes": prefixes, "tls": False, "tls_redirect": False, "strip": k % 2 == 0,
+                "cert": "none", "pages": "none", "topts": 0, "targets": [{"name": b"t" + name + b":80", "healthy": True}]}
+    out = []
+    for hosts in ([b"a.b.c"], [], [b"*.b.c"], [b"a.b.c", b"b.c"]):
+        out.append([svc(b"s0", hosts, [b"/a", b"/a/b/c"], 0), svc(b"s1", hosts, [b"/a/b"], 1)])
+        out.append([svc(b"s0", hosts, [b"/api", b"/api/v1/users"], 1), svc(b"s1", hosts, [b"/api/v1"], 0), svc(b"s2", hosts, [b"/"], 1)])
+        out.append([svc(b"s0", hosts, [b"/", b"/a/b"], 0), svc(b"s1", hosts, [b"/a"], 0), svc(b"s2", hosts, [b"/a/b/c"], 1)])
+    return out
+
+
 def run(tier, seed):
     prop = "C04"
     res = Result(prop, tier, seed)
@@ -54,8 +68,11 @@ def run(tier, seed):
         n_tables = 25 if tier == "quick" else 400
         n_req = 40 if tier == "quick" else 120
         hists, mats = [], []
-        for ti in range(n_tables):
-            tbl = gen_small_table(rnd) if ti % 4 == 3 else gen_table(rnd)
+        dtables = directed_tables()
+        if tier == "quick":
+            dtables = [t for i, t in enumerate(dtables) if i % 2 == seed % 2]
+        for ti in range(len(dtables) + n_tables):
+            tbl = dtables[ti] if ti < len(dtables) else (gen_small_table(rnd) if ti % 4 == 3 else gen_table(rnd))
             reqs = [{"host": rnd.choice(REQ_HOSTS), "uri": rnd.choice(REQ_PATHS), "tls": False, "cookie": None,
                      "method": rnd.choice(["GET", "POST"])} for _ in range(n_req)]
             for variant in range(3):
@@ -99,7 +116,7 @@ def run(tier, seed):
                     "prefixes (look-alikes, trailing slashes, empty segments), each deployed in 3 command orders (shuffled; with "
                     "redeploys and a removed service; through a restart) and queried with a Host x path matrix through Router.ServeHTTP; "
                     "evaluations = route queries, distinct_nontrivial = histories",
-            "tables": n_tables, "status_mix": statuses,
+            "tables": n_tables + len(dtables), "status_mix": statuses,
             "samples": [[{k: str(v) for k, v in c.items()} for c in hists[0]]],
             "correspondence": {"histories": len(hists), "with_mismatch": len([r for r in results if r[0]]),
                                "monitor_failures": len([r for r in results if not r[1]])},
